@@ -55,6 +55,9 @@ def access_index(ctx):
                     ff = first_field(f)
                     if ff:
                         idx.setdefault(ff, []).append({"body": b, "bb": blk["i"], "kind": "store", "node": s, "path": f, "mut": True})
+                # a borrow taken only to build a closure environment is a capture: the closure body's accesses are indexed on their own
+                if s["rv"].get("rk") == "ref" and _only_feeds_closure(b, s["lhs"]["l"]):
+                    continue
                 # read: rvalue mentions a self field place directly
                 for p in _places(s["rv"]):
                     if "*" in (p.get("p") or []) or p.get("upvar"):
@@ -66,6 +69,8 @@ def access_index(ctx):
             t = blk.get("term") or {}
             if t.get("k") == "call":
                 for i, (a, ty) in enumerate(zip(t["args"], t.get("arg_tys", []))):
+                    if ty.startswith("{closure@"):
+                        continue    # a closure passed by value: its captures are accounted for in its own body
                     srcs = fl.op_sources(a)
                     for f in self_field_of(srcs):
                         ff = first_field(f)
@@ -79,6 +84,28 @@ def access_index(ctx):
                         idx.setdefault(ff, []).append({"body": b, "bb": blk["i"], "kind": "switch", "node": t, "path": f, "mut": False})
     ctx.cache["state_index"] = idx
     return idx
+
+
+def _only_feeds_closure(b, local):
+    """the local is used only as an operand of closure aggregates"""
+    used_in_closure = False
+    for blk in b["blocks"]:
+        for s in blk["stmts"]:
+            if s["k"] != "assign":
+                continue
+            rv = s["rv"]
+            mentions = any(p.get("l") == local for p in _places(rv))
+            if mentions:
+                if rv.get("rk") == "agg" and rv.get("agg") == "closure":
+                    used_in_closure = True
+                else:
+                    return False
+        t = blk.get("term") or {}
+        if t.get("k") == "call" and any(p.get("l") == local for p in _places(t["args"])):
+            return False
+        if t.get("k") == "switch" and any(p.get("l") == local for p in _places(t["discr"])):
+            return False
+    return used_in_closure
 
 
 def _is_mut_ref(ty):
